@@ -36,30 +36,30 @@ def samples_of(scs, n=3):
 def pipeline(ctx, monitor, family, scenarios, opt='', consts='', drift_fn=None, rule='', nontrivial=None, assumptions=(),
              exhaustive=False, extra_cov=None, binary=None, more=()):
     """RUN all scenarios on the real code (sharded over the cores), JUDGE each shard with the monitor, classify, write evidence.
-    `more` = further (family, scenarios, opt) groups judged by the same monitor."""
-    groups = [(family, scenarios, opt)] + list(more)
+    `more` = further (family, scenarios, opt[, monitor]) groups, judged by the same monitor unless they name their own."""
+    groups = [(family, scenarios, opt, monitor)] + [tuple(g) + (monitor,) * (4 - len(g)) for g in more]
     allscs = []
-    for fam, scs, o in groups:
+    for fam, scs, o, mon in groups:
         for s in scs:
-            s['_fam'], s['_opt'] = fam, o
+            s['_fam'], s['_opt'], s['_mon'] = fam, o, mon
         allscs += scs
     by_sid = {s['sid']: s for s in allscs}
     if len(by_sid) != len(allscs):
         raise Machinery('duplicate scenario ids')
     jobs = []
-    for fam, scs, o in groups:
+    for fam, scs, o, mon in groups:
         k = max(1, min(NCPU, len(scs) // 20 + 1))
         if fam == 'alias':
             k = len(scs)            # one process per scenario: a race report belongs to exactly one scenario
         for i in range(k):
             part = scs[i::k]
             if part:
-                jobs.append((fam, o, part, len(jobs)))
+                jobs.append((fam, o, part, len(jobs), mon))
 
     def one(job):
-        fam, o, part, i = job
-        sp = ctx.path('scn_%s_%d.ndjson' % (monitor, i))
-        tp = ctx.path('trace_%s_%d.ndjson' % (monitor, i))
+        fam, o, part, i, mon = job
+        sp = ctx.path('scn_%s_%d.ndjson' % (mon, i))
+        tp = ctx.path('trace_%s_%d.ndjson' % (mon, i))
         with open(sp, 'w') as f:
             for s in part:
                 f.write(json.dumps(s) + '\n')
@@ -84,7 +84,11 @@ def pipeline(ctx, monitor, family, scenarios, opt='', consts='', drift_fn=None, 
                 if 'b' in e and isinstance(e['b'], list) and len(e['b']) > 24:
                     e['b'] = e['b'][:24] + ['... %d bytes' % len(e['b'])]
                 sample_events.append(e)
-    viols, events = judge_many(ctx, monitor, traces, consts)
+    viols, events = [], 0
+    for mon in sorted({j[4] for j in jobs}):
+        v, n = judge_many(ctx, mon, [t for t, j in zip(traces, jobs) if j[4] == mon], consts if mon == monitor else '')
+        viols += v
+        events += n
     nt = nontrivial or (lambda s: True)
     shapes = {shape_hash(s) for s in scenarios if nt(s)}
     cov = {
@@ -259,6 +263,7 @@ def run_c02(ctx):
     quick = ctx.tier == 'quick'
     for cfg in (['Demux_c02_psi.cfg', 'Demux_c02_early.cfg'] if quick else ['Demux_c02_psi.cfg', 'Demux_c02_early.cfg', 'Demux_c02_pes.cfg']):
         model_check(ctx, 'MC_Demux', cfg)
+    model_check(ctx, 'MC_PacketPool', 'PacketPool.cfg', workers=4)
     if quick:
         scs = demux_scenarios(ctx, ['Demux_gen_psi_quick.cfg', 'Demux_gen_pes_quick.cfg', 'Demux_gen_early_quick.cfg'], 'dg', sample=9000)
     else:
@@ -269,10 +274,11 @@ def run_c02(ctx):
         s['sid'] = 'e' + s['sid']
     rnd += rnd2
     return pipeline(
-        ctx, 'Mon_C02', 'demux', scs + rnd, drift_fn=demux_drift_fn(scs),
+        ctx, 'Mon_C02', 'demux', scs + rnd, drift_fn=demux_drift_fn(scs), more=[acc_group(scs + rnd, 800 if quick else 30000, ctx.seed)],
         rule='scenario = well-formed transport stream (units with byte layouts + packetisation + interleaving); TLC-generated: one per transition of the '
              'Demux.tla (generator x demuxer) state graph, completed canonically; random: seeded reference multiplexer harness/streamgen.go '
-             '(1..8 PIDs, bounded/unbounded PES, 1..3 sections, pointer fields, trailing stuffing or exact fit); distinct by hash of units+packets',
+             '(1..8 PIDs, bounded/unbounded PES, 1..3 sections, pointer fields, trailing stuffing or exact fit); distinct by hash of units+packets. '
+             'A sample of the streams plus one free-alphabet stream each is validated step by step against PacketPool.tla (Mon_Acc)',
         assumptions=['well-formed per ISO 13818-1 2.4.4: the payload_unit_start packet of a section carries the section\'s first byte; on PAT/PMT PIDs no '
                      'interior section boundary coincides with a packet boundary (DESIGN.md 7)', 'explicit packet size 188 for the no-read-ahead clause',
                      'units on a PMT PID that start before the first PAT is complete are optional (a receiver cannot know the PID yet); units that start later are not'])
@@ -303,10 +309,25 @@ def fault_variants(sc, kinds=('dup', 'duppcr', 'drop'), every=1):
     return out
 
 
+def acc_group(scs, cap, seed):
+    """the same streams once more through the `acc` family: every packet, accumulator decision and group handed to NextData's parser is
+    validated against spec/PacketPool.tla by the trace specification Mon_Acc (plus one free-alphabet stream per scenario)"""
+    import random
+    rnd = random.Random(seed)
+    pick = scs if len(scs) <= cap else rnd.sample(scs, cap)
+    out = []
+    for s in pick:
+        c = {k: v for k, v in s.items() if not k.startswith('_')}
+        c['sid'] = 'acc-' + s['sid']
+        out.append(c)
+    return ('acc', out, '', 'Mon_Acc')
+
+
 def run_c06(ctx):
     build_harness(ctx)
     quick = ctx.tier == 'quick'
     model_check(ctx, 'MC_Demux', 'Demux_c06.cfg' if quick else 'Demux_c06_deep.cfg')
+    model_check(ctx, 'MC_PacketPool', 'PacketPool.cfg', workers=4)      # the pool over a free packet alphabet: queues and returned groups are runs
     # (a) TLC: behaviours of the generator x channel x demuxer model with one dup/drop anywhere
     tl = demux_scenarios(ctx, ['Demux_gen_c06_quick.cfg' if quick else 'Demux_gen_c06_deep.cfg'], 'fg', sample=6000 if quick else 150000)
     tl = [s for s in tl if any('f' in p for p in s['pkts'])]
@@ -319,9 +340,12 @@ def run_c06(ctx):
     # (c) seeded multi-fault patterns (bursts < 16, duplicates of first/middle/last packets)
     multi = harness_gen(ctx, 'pair', 300 if quick else 10000, ctx.seed, 3)
     return pipeline(
-        ctx, 'Mon_C06', 'pair', tl + ex + multi,
+        ctx, 'Mon_C06', 'pair', tl + ex + multi, more=[acc_group(tl + ex + multi, 600 if quick else 20000, ctx.seed)],
         rule='scenario = (clean stream, channel faults); TLC: transitions of Demux.tla with Faults={dup,drop}; exhaustive per stream: every single '
-             'duplication and deletion position; random: multi-fault patterns; distinct by hash of units+packets+fault marks',
+             'duplication and deletion position; random: multi-fault patterns; distinct by hash of units+packets+fault marks. A sample of the faulted '
+             'streams and one free-alphabet stream each (any counter, unit start, adaptation-only, transport_error, discontinuity_indicator, sound '
+             'and unsound PSI payloads) are also validated step by step against PacketPool.tla (Mon_Acc: accumulator hook decisions, groups handed '
+             'to NextData, end-of-stream dump)',
         assumptions=['errors returned on a faulted stream are not violations; a duplicate on a PSI PID may cause a second delivery of the same section',
                      'loss domain: < 16 consecutive losses per PID and a later payload packet of that PID (scenarios outside are skipped by the harness)'])
 
